@@ -265,6 +265,9 @@ def pyUnlink (path : Name) : PatchM Unit := fun w =>
   | none => (.error .fileNotFound, w)
   | some _ => (.ok (), { w with disk := eraseF w.disk path, trace := w.trace ++ [.unlink path] })
 
+/-- `path.is_file()` -/
+def pyIsFile (path : Name) : PatchM Bool := fun w => (.ok (getF w.disk path).isSome, w)
+
 /-- `mf.save(path)` (`IH5Manifest.save`: `open(path, "wb")`, write, flush) -/
 def pyManifestSave (mf : Nat × Nat) (path : Name) : PatchM Unit := fun w =>
   (.ok (), { w with disk := setF w.disk path (.mf mf.1 mf.2),
